@@ -362,7 +362,7 @@ void simplify_case(Ctx& cx, verif::Rng& g, json base)
 {
     bool default_ctor = g.coin(0.6);
     double tol = default_ctor ? 1e-10 : (g.coin() ? 1e-8 : 1e-6);
-    int fam = static_cast<int>(g.integer(0, 15));
+    int fam = static_cast<int>(g.integer(0, 19));
     Frame f;
     double lam = sgn_rand(g) * (g.coin() ? 1.0 : g.loguniform(0.1, 10));
     auto run = [&](auto const& s, char const* famname) {
@@ -478,6 +478,57 @@ void simplify_case(Ctx& cx, verif::Rng& g, json base)
             Sphere sp = Gen<Sphere>::make(g, f);
             GeneralQuadric gq{scale_coefficients(SimpleQuadric{sp}, lam)};
             run(gq, "gq-from-sphere");
+            break;
+        }
+        case 16:
+        case 17: {
+            // Structured (degenerate) quadrics with exact zeros and exactly equal coefficients:
+            // paraboloids of revolution, elliptic / hyperbolic paraboloids, parabolic cylinders,
+            // cylinders / cones / spheres written with arbitrary scale.  These are the inputs on
+            // which the Quadric*Converter guards (which coefficient must vanish) decide.
+            f.L = g.loguniform(1e-2, 1e2);
+            double a = g.loguniform(0.1, 10);
+            double bq = g.coin(0.5) ? a : g.loguniform(0.1, 10);
+            int ax = int(g.integer(0, 2));
+            int u = (ax + 1) % 3, v = (ax + 2) % 3;
+            Real3 second{0, 0, 0}, first{0, 0, 0};
+            Real3 ctr{g.coin(0.3) ? 0.0 : f.L * g.uniform(-2, 2), g.coin(0.3) ? 0.0 : f.L * g.uniform(-2, 2),
+                      g.coin(0.3) ? 0.0 : f.L * g.uniform(-2, 2)};
+            int kind = int(g.integer(0, 5));
+            second[u] = a;
+            second[v] = (kind == 2) ? -bq : bq;  // kind 2: hyperbolic paraboloid / hyperbolic cylinder
+            double along2 = 0;  // second-order coefficient along the axis
+            double along1 = 0;  // first-order coefficient along the axis
+            double h = -a * f.L * f.L * g.uniform(0.2, 2);  // "radius^2" like constant
+            switch (kind)
+            {
+                case 0: along1 = sgn_rand(g) * a * f.L * g.loguniform(0.1, 10); break;  // paraboloid
+                case 1: break;  // cylinder (elliptic if a != bq)
+                case 2: along1 = g.coin() ? 0.0 : a * f.L * g.uniform(-3, 3); break;
+                case 3: along2 = -a * g.loguniform(0.1, 10); h = g.coin() ? 0.0 : h; break;  // cone / hyperboloid
+                case 4: along2 = bq; break;  // ellipsoid / sphere
+                default: second[v] = 0; along1 = a * f.L * g.uniform(0.2, 3); break;  // parabolic cylinder
+            }
+            second[ax] = along2;
+            // expand a (x - c)^2 terms about the centre
+            double zeroth = h;
+            for (int k = 0; k < 3; ++k)
+            {
+                first[k] = -2 * second[k] * ctr[k];
+                zeroth += second[k] * ctr[k] * ctr[k];
+            }
+            first[ax] += along1;
+            zeroth -= along1 * ctr[ax];
+            f.c = ctr;
+            f.axis = ax;
+            SimpleQuadric sq{second, first, zeroth};
+            if (fam == 16)
+                run(scale_coefficients(sq, lam), "sq-structured");
+            else
+            {
+                GeneralQuadric gq{scale_coefficients(sq, lam)};
+                run(gq, "gq-structured");
+            }
             break;
         }
         default: {
